@@ -117,12 +117,16 @@ def check(pid, tier, seed):
                     prob = "step %d (%s): the operator %s, but subscriber 2 %s" % (i, name, "threw" if r.get("threw") else "returned normally", "was notified and throws" if thrower else "does not throw")
                 elif r["ret"] != enc(kind, st["ret"]) and not r.get("threw"):
                     prob = "step %d (%s): operator result %s, model says %s" % (i, name, r["ret"], enc(kind, st["ret"]))
+                if prob and thrower:
+                    # a subscriber that throws is outside C16's quantifier: reported, not judged
+                    verdict.note("observable[%s, a subscriber throws] %s" % (ty, name), prob)
+                    break
                 if prob:
                     ops = [step_line(g, e2, kind)[2:] for e2 in path]
                     verdict.violation("observable[%s] %s %s" % (ty, name, prob.split(":")[1].strip().split()[0]), prob,
                                       {"component": "observable", "xid": xid, "type": ty, "init": enc(kind, g.states[g.edges[path[0]][0]]["val"]), "history": ops[:i + 1]})
                     break
-            if prob and not prob.startswith("step"):
+            if prob and not prob.startswith("step") and not thrower:
                 verdict.violation("observable[%s] stopped" % ty, prob, {"component": "observable", "type": ty})
             if len(samples) < 3 and len(path) > 6 and ty in ("int", "float", "str"):
                 samples.append({"type": ty, "init": enc(kind, g.states[g.edges[path[0]][0]]["val"]), "history": [step_line(g, e2, kind)[2:] for e2 in path][:20]})
